@@ -290,7 +290,7 @@ def ellipsoid_rules(repo, rep, projections=False):
 
 
 
-def dtype_rule(repo, rep, funcs):
+def dtype_rule(repo, rep, funcs, helpers=False):
     """numpy updates an array in place in the array's own dtype.  An array built with np.array(...) from the caller's numbers alone is an
     integer array whenever those numbers are integers: `a += <float>` then raises (same-kind casting) and `a[i] = <float>` truncates.
     The evaluator records every in-place update of such an array it meets; here the ones inside `funcs` are reported.  Call after the
@@ -317,6 +317,22 @@ def dtype_rule(repo, rep, funcs):
                          'integer array, and %s' % (txt, show(arr, 1, 80), 'adding a non-integer value to it in place raises a casting error' if kind == 'aug'
                                                     else 'the stored value is truncated to an integer'),
                          expected='a new array (a = a + b) or an explicit float dtype', actual=txt)
+    if helpers:
+        # the same events inside functions the listed ones call (a shared helper that rotates "in place")
+        listed = set((mod, q) for mod, q in funcs)
+        seen = set()
+        for fn, node, kind, arr, val in INPLACE_EVENTS:
+            if fn is None or not hasattr(fn, 'module') or (getattr(fn.module, 'name', None), getattr(fn, 'qualname', None)) in listed:
+                continue
+            if not getattr(fn.module, 'name', '').startswith('geodepy'):
+                continue
+            txt = stmt_text(node)[:100]
+            if (fn.qualname, txt) in seen:
+                continue
+            seen.add((fn.qualname, txt))
+            rep.violated('R-DTYPE', 'R-DTYPE::%s::%s::in-place' % (fn.module.relpath, fn.qualname), where(fn, node), '`%s` (in %s, called from the functions of this property) updates in '
+                         'place an array built from the caller\'s numbers alone (%s): with integer arguments it is an integer array and the stored value is truncated to an integer - '
+                         'a vector (1200, -3400, 56) comes back as whole numbers' % (txt, fn.qualname, show(arr, 1, 80)), expected='a new array or an explicit float dtype', actual=txt)
 
 
 def mutable_default_rule(repo, rep, modnames):
@@ -1231,6 +1247,52 @@ def typecheck_rules(repo, rep):
             rep.holds('R-DISPATCH', key, w, '%s objects are converted by their .dec()' % cn)
         else:
             rep.undecided('R-DISPATCH', key, w, 'angular_typecheck(%s object) = %s' % (cn, show(got, 3, 160)))
+    # the summary was confirmed on geodepy.angles.angular_typecheck: every module that calls the name must mean THAT function (a second
+    # definition further down a module, or an import from somewhere else, shadows it - last binding wins)
+    n_use = 0
+    for mod in sorted(repo.modules.values(), key=lambda x_: x_.name):
+        if not mod.name.startswith('geodepy') or '.tests' in mod.name:
+            continue
+        uses = [c for g_ in mod.all_functions() for c in ast.walk(g_.node) if isinstance(c, ast.Call) and isinstance(c.func, ast.Name) and c.func.id == 'angular_typecheck']
+        if not uses:
+            continue
+        n_use += 1
+        tgt = repo.resolve_global(mod, 'angular_typecheck')
+        key = 'R-DISPATCH::%s::angular_typecheck::binding' % mod.relpath
+        if tgt is f:
+            rep.holds('R-DISPATCH', key, '%s:1' % mod.relpath, 'the %d calls of angular_typecheck in %s mean geodepy.angles.angular_typecheck' % (len(uses), mod.relpath), work=False)
+        else:
+            other = getattr(tgt, 'module', None)
+            loc = '%s:%d' % (other.relpath, tgt.node.lineno) if other is not None and hasattr(tgt, 'node') else '%s:1' % mod.relpath
+            # another function of the same name shadows it (the last binding of a module-level name wins): it is held to the same table
+            bad = []
+            decided = hasattr(tgt, 'node') and hasattr(tgt, 'params') and bool(tgt.params)
+            if decided:
+                for cn in ANGLE_CLASSES:
+                    if cn == 'DECAngle':
+                        continue        # a float subclass: float(obj) is its decimal degrees
+                    ev = Evaluator(repo, opaque={cn + '.dec'})
+                    ev.summaries.pop('angular_typecheck', None)
+                    o = ev.symbolic_object(m.classes[cn], 'ang', origin='param:ang')
+                    try:
+                        got = ev.call_function(tgt, {tgt.params[0].name: o})
+                    except Exception:
+                        decided = False
+                        break
+                    want = ev.invoke(m.classes[cn].methods['dec'], [o], {}, None)
+                    g = got.rat if isinstance(got, CallV) else got
+                    wv = want.rat if isinstance(want, CallV) else want
+                    if compare_values(g, wv) != 'equal':
+                        bad.append((cn, show(got, 3, 100)))
+            if not decided:
+                rep.undecided('R-DISPATCH', key, loc, 'angular_typecheck as called in %s is %s, not geodepy.angles.angular_typecheck, and could not be evaluated' % (mod.relpath, loc))
+            elif bad:
+                rep.violated('R-DISPATCH', key, loc, 'angular_typecheck as called in %s is not geodepy.angles.angular_typecheck but the function at %s, which shadows it (the last binding of a '
+                             'module-level name wins) and does not convert %s objects by their .dec() (%s): every conversion that reduces its arguments with it - vincdir, vincinv, geo2grid, '
+                             'llh2xyz - reads such objects as decimal degrees' % (mod.relpath, loc, ', '.join(b[0] for b in bad), bad[0][1]),
+                             expected='geodepy/angles.py::angular_typecheck (obj.dec() for all five classes)', actual='%s: %s' % (loc, bad[0][1]))
+            else:
+                rep.holds('R-DISPATCH', key, loc, 'the calls of angular_typecheck in %s mean the function at %s, which converts every angle class by its .dec() as well' % (mod.relpath, loc), work=False)
     ev = Evaluator(repo)
     ev.summaries.pop('angular_typecheck', None)
     ev.fold_const_types = True
